@@ -3163,12 +3163,25 @@ fn crafted_signature(
     unhashed: Vec<u8>,
     salt: Vec<u8>,
 ) -> Option<(Vec<u8>, rfc::sig::RefSig)> {
+    crafted_signature_h(signer, doc, typ, hashed, unhashed, salt, None)
+}
+
+/// `hash`: Some(id) overrides the default hash (SHA-256 for v4, SHA-512 for v6)
+fn crafted_signature_h(
+    signer: &SignedSecretKey,
+    doc: &[u8],
+    typ: u8,
+    hashed: Vec<u8>,
+    unhashed: Vec<u8>,
+    salt: Vec<u8>,
+    hash: Option<u8>,
+) -> Option<(Vec<u8>, rfc::sig::RefSig)> {
     let v6 = u8::from(signer.version()) == 6;
     let mut rs = rfc::sig::RefSig {
         version: if v6 { 6 } else { 4 },
         typ,
         pub_alg: u8::from(signer.algorithm()),
-        hash_alg: if v6 { 10 } else { 8 },
+        hash_alg: hash.unwrap_or(if v6 { 10 } else { 8 }),
         created: 0,
         issuer: [0u8; 8],
         hashed,
@@ -3184,7 +3197,7 @@ off_left16: 0,
     };
     let digest = rs.digest_document(doc)?;
     rs.left16 = [digest[0], digest[1]];
-    let ha = if v6 { HashAlgorithm::Sha512 } else { HashAlgorithm::Sha256 };
+    let ha = match hash { Some(h) => HashAlgorithm::from(h), None => if v6 { HashAlgorithm::Sha512 } else { HashAlgorithm::Sha256 } };
     let sb = signer.primary_key.sign(&Password::empty(), ha, &digest).ok()?;
     let mut data = vec![];
     match &sb {
@@ -5308,6 +5321,153 @@ fn f1r(ctx: &mut Ctx) {
     }
 }
 
+// ------------------------------------------------------------------------------------------
+// F7: attacker-chosen signature *values* behind a well-formed signature packet
+
+/// For every signing algorithm and key version the harness holds: a signature packet whose hashed area,
+/// salt and digest prefix are right for the document (so verification gets as far as the public-key
+/// primitive) and whose algorithm-specific value is attacker-chosen: every combination of MPI octet
+/// lengths from a boundary list (0, 1, around the field size of every curve, RSA/DSA sizes, oversized),
+/// wrong MPI counts, native values of wrong length. Driven through `Signature::verify`, the detached and the
+/// inline path and the packet re-serialisation.
+fn f7(ctx: &mut Ctx, env: &Env) {
+    use crate::rfc::frame::{frame, LenForm};
+    let doc: &[u8] = b"signed by a hostile peer\r\n";
+    let lens_small: Vec<usize> = vec![0, 1, 2, 19, 20, 21, 27, 28, 29, 31, 32, 33, 34, 47, 48, 49, 50, 55, 56, 57, 63, 64, 65, 66, 67, 68, 70, 113, 114, 115, 128, 255, 256, 257, 300, 512, 1024, 2048];
+    let lens_quick: Vec<usize> = vec![0, 1, 20, 31, 32, 33, 34, 47, 48, 49, 65, 66, 67, 70, 114, 256, 257, 300];
+    let lens = if ctx.quick() { lens_quick } else { lens_small };
+    for (si, (name, sk, pk)) in env.signers.iter().enumerate() {
+        let v6 = u8::from(sk.version()) == 6;
+        let mut rng0 = ctx.rng("F7", si as u64);
+        let salt = if v6 { rnd_bytes(&mut rng0, 32) } else { vec![] };
+        let mut hashed = rfc::sig::encode_subpacket(2, false, &[0x65, 0, 0, 0], 0);
+        hashed.extend(rfc::sig::encode_subpacket(33, false, &[&[u8::from(sk.version())][..], sk.fingerprint().as_bytes()].concat(), 0));
+        let unhashed = if v6 { vec![] } else { rfc::sig::encode_subpacket(16, false, sk.legacy_key_id().as_ref(), 0) };
+        // SHA-512 suits every key's hash-strength policy (P-384/P-521/Ed448 refuse SHA-256); v6 salt 32
+        let Some((_, rs)) = crafted_signature_h(sk, doc, 0, hashed, unhashed, salt, Some(10)) else {
+            ctx.inconclusive(format!("F7: cannot craft a signature for {name}"));
+            continue;
+        };
+        let alg = rs.pub_alg;
+        // the value variants: (label, octets)
+        let mpi_of = |rng: &mut ChaCha8Rng, n: usize, top: u8| -> Vec<u8> {
+            let mut v = rnd_bytes(rng, n);
+            if n > 0 {
+                v[0] = top;
+            }
+            // hostile: bit count as for a minimal MPI, octets exactly as chosen
+            let bits = if n == 0 { 0 } else { (n * 8) as u32 - v[0].leading_zeros().min(7) };
+            let mut o = (bits as u16).to_be_bytes().to_vec();
+            o.extend(v);
+            o
+        };
+        let mut cases: Vec<(String, Vec<u8>)> = vec![];
+        for (ai, &a) in lens.iter().enumerate() {
+            // one MPI only
+            cases.push((format!("one-mpi:{a}"), mpi_of(&mut rng0, a, 0x80)));
+            for (bi, &b) in lens.iter().enumerate() {
+                // all pairs on the small lengths, a diagonal band plus the extremes above
+                if !(a <= 70 && b <= 70) && ai != bi && ai != 0 && bi != 0 && a != 1024 && b != 1024 {
+                    continue;
+                }
+                for top in [0x80u8, 0x01] {
+                    if top == 0x01 && (ai + bi) % 3 != 0 {
+                        continue;
+                    }
+                    let mut v = mpi_of(&mut rng0, a, top);
+                    v.extend(mpi_of(&mut rng0, b, top));
+                    cases.push((format!("two-mpis:{a}+{b}:top={top:#x}"), v));
+                }
+            }
+            // three MPIs / native octets of that length
+            let mut v = mpi_of(&mut rng0, a, 0x80);
+            v.extend(mpi_of(&mut rng0, a, 0x80));
+            v.extend(mpi_of(&mut rng0, a, 0x80));
+            cases.push((format!("three-mpis:{a}"), v));
+            cases.push((format!("native:{a}"), rnd_bytes(&mut rng0, a)));
+        }
+        // the genuine value with r and s swapped, doubled, and with a lying bit count
+        cases.push(("genuine-doubled".into(), [rs.sig_data.clone(), rs.sig_data.clone()].concat()));
+        if rs.sig_data.len() > 2 {
+            let mut v = rs.sig_data.clone();
+            v[0] = 0xFF;
+            v[1] = 0xFF;
+            cases.push(("genuine-bitcount-ffff".into(), v));
+            cases.push(("genuine-truncated".into(), rs.sig_data[..rs.sig_data.len() - 1].to_vec()));
+        }
+        for (ci, (label, value)) in cases.iter().enumerate() {
+            if !ctx.mine() {
+                continue;
+            }
+            let mut r2 = rs.clone();
+            r2.sig_data = value.clone();
+            let body = r2.encode();
+            let desc = format!("F7:{name}:alg={alg}:{label}");
+            let class = label.split(':').next().unwrap_or("").to_string();
+            let pkb = pk.clone();
+            let obs = run_case(ctx, "F7", &desc, || json!({"family": "F7", "signer": name, "value": label, "signature_body": hexfull(&body)}), || {
+                let mut obs = Obs::default();
+                let hdr = pgp::packet::PacketHeader::new_fixed(pgp::types::Tag::Signature, body.len() as u32);
+                stage("Signature::try_from_reader");
+                if let Ok(sig) = pgp::packet::Signature::try_from_reader(hdr, &body[..]) {
+                    obs.parsed += 1;
+                    step("Signature::verify", || {
+                        match sig.verify(&pkb.primary_key, doc) {
+                            Ok(()) => obs.verified_ok += 1,
+                            Err(_) => obs.verified_err += 1,
+                        }
+                    });
+                    step("Signature::to_bytes", || {
+                        if sig.to_bytes().is_ok() {
+                            obs.serialized += 1;
+                        }
+                    });
+                    exercise_signature_packet(&sig, &mut obs);
+                } else {
+                    obs.errs += 1;
+                }
+                // inline: [signature][literal]
+                let mut lit = vec![b'b', 0, 0, 0, 0, 0];
+                lit.extend_from_slice(doc);
+                let mut msg = frame(2, &body, &LenForm::NewMin).unwrap_or_default();
+                msg.extend(frame(11, &lit, &LenForm::NewMin).unwrap_or_default());
+                stage("Message::from_bytes");
+                if let Ok(mut m) = Message::from_bytes(&msg[..]) {
+                    let mut out = vec![];
+                    step("Message::read_to_end", || {
+                        let _ = m.read_to_end(&mut out);
+                    });
+                    step("Message::verify", || {
+                        match m.verify(&pkb.primary_key) {
+                            Ok(_) => obs.verified_ok += 1,
+                            Err(_) => obs.verified_err += 1,
+                        }
+                    });
+                }
+                // detached
+                stage("DetachedSignature::from_bytes");
+                if let Ok(ds) = DetachedSignature::from_bytes(&frame(2, &body, &LenForm::NewMin).unwrap_or_default()[..]) {
+                    step("DetachedSignature::verify", || {
+                        let _ = ds.verify(&pkb.primary_key, doc);
+                    });
+                }
+                obs
+            });
+            if let Some(o) = obs {
+                o.tally(ctx, "F7");
+                ctx.cover(&("F7", name, ci));
+                ctx.seen("F7.alg x value-class", format!("{alg}/{class}"));
+                if o.verified_ok > 0 && !label.starts_with("genuine") {
+                    ctx.tally("F7.hostile-value-verified", o.verified_ok as u64);
+                }
+            }
+        }
+        if si < 2 {
+            ctx.sample(json!({"family": "F7", "signer": name, "alg": alg, "value_variants": cases.len()}));
+        }
+    }
+}
+
 pub fn run(ctx: &mut Ctx) {
     let only = std::env::var("VERIF_C04_ONLY").unwrap_or_default();
     let want = |f: &str| only.is_empty() || only.split(',').any(|x| x == f);
@@ -5336,5 +5496,8 @@ pub fn run(ctx: &mut Ctx) {
     }
     if want("F6") {
         f6(ctx, &env);
+    }
+    if want("F7") {
+        f7(ctx, &env);
     }
 }
